@@ -10,7 +10,7 @@
    internal_error throws in update_timeout / send_event / tracker_next_timeout_promiscuous are
    guarded by the callers' own tests and not modelled (the harness prints ERR:internal if hit). *)
 From Coq Require Import List ZArith Bool Arith.
-From LTV Require Import Params_gen.
+From LTV.C13 Require Import ParamsGen.
 Import ListNotations.
 Open Scope Z_scope.
 
